@@ -21,7 +21,7 @@ def want_vis(inst, param_vis):
     if param_vis is None:
         return enum_vis
     if param_vis == '':
-        return 'in:' + inst.mod
+        return 'in:' + inst.priv_mod
     if param_vis == 'pub(crate)':
         return 'crate'
     if param_vis == 'pub':
@@ -34,7 +34,7 @@ def struct_name(inst, f):
 
 def check_instance(inst, F, ctx, extra):
     cr = inst.crate
-    private = 'in:' + inst.mod
+    private = 'in:' + inst.priv_mod
     if inst.mod.count('::') == 1 and False:
         pass
     requested = {}     # item name -> feature
@@ -89,7 +89,7 @@ def check_instance(inst, F, ctx, extra):
         if nm in requested or it is None:
             continue
         if it['vis'] != private:
-            ctx.violation('helper-private', inst, nm, 'helper item `%s` (not requested by the user) has resolved visibility %s; required: private to %s' % (nm, it['vis'], inst.mod),
+            ctx.violation('helper-private', inst, nm, 'helper item `%s` (not requested by the user) has resolved visibility %s; required: private to %s' % (nm, it['vis'], inst.priv_mod),
                           key='C15/helper-private/assoc', construct='the disabled default of the feature that owns `%s` (src/feature/*.rs::parse, else branch)' % nm)
         else:
             ctx.ok('helper-private', inst)
